@@ -5,8 +5,8 @@ R = json.load(open('/verif/seeded/results.json'))
 out = ["# Seeded breaking changes and what the checks say about them", "",
        "Each change was written by a fresh sub-agent that saw only the property text and a scratch worktree of /repo",
        "(nothing from /verif), compiles, passes the unchanged test suite, and comes with a demonstration that fails with",
-       "it and passes without it - all confirmed here (`tools/seed_confirm.sh`). Evaluate one with",
-       "`tools/seed_eval.sh <id>` (applies the patch to /repo, runs `./check`, undoes it).", "",
+       "it and passes without it - all confirmed here (`tools/seed_confirm.sh`, from wave 5 on `tools/seed_confirm2.sh` in a worktree of our own). Evaluate one with",
+       "`tools/seed_eval.sh <id>` (applies the patch to /repo, runs `./check`, undoes it); `tools/seed_eval_par.sh` evaluates all of them, each in a scratch worktree of its own (`seeded/last_eval.txt`).", "",
        "| seed | property | what it needs to manifest | first run of the check | now | what was strengthened |", "|---|---|---|---|---|---|"]
 for k in sorted(R):
     m = json.load(open(f'/verif/seeded/{k}/meta.json')) if os.path.exists(f'/verif/seeded/{k}/meta.json') else {}
